@@ -7,17 +7,20 @@
 #include "vp.h"
 #include "vsrv.h"
 #include <unistd.h>
+#include <pthread.h>
 using namespace asl;
 
 static AtomicCount g_enter, g_exit;
 static int g_served[8];
 static Mutex g_mutex;
+static Socket* g_keep[4]; static int g_nkeep, g_keepcopies;
 
 struct Echo : public SocketServer
 {
 	void serve(Socket client)
 	{
 		++g_enter;
+		if (g_keepcopies) { g_mutex.lock(); if (g_nkeep < 4) g_keep[g_nkeep++] = new Socket(client); g_mutex.unlock(); }   // the application keeps a handle
 		byte t = 0;
 		int n = client.read(&t, 1);
 		if (n == 1)
@@ -30,11 +33,16 @@ struct Echo : public SocketServer
 	}
 };
 
-// p0 = preemption budget, p1 = number of clients, p2 = sequential mode, p3 = bit mask of clients that close right after sending
+static int g_late_h;
+static void* late_closer(void*) { usleep(3500000); vp_cli_close(g_late_h); return 0; }   // native runs only: the silent client gives up after 3.5 s
+// p0 = preemption budget, p1 = number of clients, p2 = sequential mode, p3 = bit mask of clients that close right after sending,
+// p4 = scenario: 0 plain; 1 clients send nothing and close at once (silent); 2 serve() keeps a copy of its Socket;
+//      3 one late client: stop(false), a while later stop(true) while its serve() is still waiting for the token
 extern "C" void h_server(void)
 {
 	vp_sched_budget(vp_param(0));
-	int n = vp_param(1), seq = vp_param(2), early = vp_param(3);
+	int n = vp_param(1), seq = vp_param(2), early = vp_param(3), scen = vp_param(4);
+	g_keepcopies = scen == 2; g_nkeep = 0;
 	int h[4];
 	int entered_at_stop;
 	{
@@ -46,14 +54,37 @@ extern "C" void h_server(void)
 		for (int i = 0; i < n; i++)
 		{
 			byte tok = (byte)i;
-			h[i] = vp_cli_connect(&tok, 1);
+			h[i] = vp_cli_connect(&tok, (scen == 1 || scen == 3) ? 0 : 1);
 			vp_assume(h[i] >= 0);
-			if (early & (1 << i)) vp_cli_close(h[i]);
+			if ((early & (1 << i)) || scen == 1) vp_cli_close(h[i]);
+		}
+		if (scen == 1 || scen == 3)
+		{
+			// let the accept loop pick the connections up before the stop request
+			if (!vp_symbolic_run()) usleep(600000);
+			else for (int tries = 0; tries < 20; tries++) { bool all = true; for (int i = 0; i < n; i++) if (!vp_srv_accepted(h[i])) all = false; if (all) break; usleep(1000); }
+		}
+		if (scen == 3)
+		{
+			pthread_t closer;
+			if (!vp_symbolic_run()) { g_late_h = h[0]; pthread_create(&closer, 0, late_closer, 0); pthread_detach(closer); }
+			srv.stop(false);
+			if (!vp_symbolic_run()) usleep(2500000); else for (int k = 0; k < 6; k++) usleep(1000);     // the accept loop notices the request and ends
 		}
 		srv.stop(true);
 		vp_assert(!srv.running(), "running() is false after stop(true)");
 		vp_assert((int)g_enter == (int)g_exit, "stop(true) returned while a serve() call was still in flight");
 		entered_at_stop = g_enter;
+		if (scen == 1)
+		{
+			int acc = 0; for (int i = 0; i < n; i++) acc += vp_srv_accepted(h[i]);       // (natively: every connection, the loop had time to accept them)
+			vp_assert(entered_at_stop == acc, "every accepted connection was passed to serve() exactly once (also one whose peer closed without sending)");
+		}
+		if (scen == 2)
+			for (int i = 0; i < n; i++) if (g_served[i] == 1)
+				vp_assert(vp_srv_closed_by_server(h[i]), "the connection is closed after serve() returned (even when the application kept a Socket handle)");
+		for (int i = 0; i < g_nkeep; i++) { delete g_keep[i]; g_keep[i] = 0; }
+		g_nkeep = 0;
 	}
 	vp_assert((int)g_enter == entered_at_stop, "a serve() call started after stop(true) returned");
 	int served = 0;
@@ -66,7 +97,7 @@ extern "C" void h_server(void)
 			vp_assert(k == 1 && r[0] == (byte)i, "the client of a served connection did not get its own token back");
 		else
 			vp_assert(k <= 1 && (k == 0 || r[0] == (byte)i), "a client received bytes that are not its own token");
-		if (g_served[i] == 1 && vp_symbolic_run())
+		if (g_served[i] == 1)
 			vp_assert(vp_srv_closed_by_server(h[i]), "the connection was not closed after serve() returned");
 		vp_cli_close(h[i]);
 	}
